@@ -1785,6 +1785,7 @@ package xpath
 //@   modifies s.curr, s.currSize, s.pos
 //@   ensures[swf@C17] swf(s) && old(s.pos) <= s.pos
 //@   ensures[advance@C17] (result ==> s.pos == old(s.pos) + s.currSize) && (!result ==> s.pos == old(s.pos) && s.currSize == 1)
+//@   ensures[end@C10] !result ==> s.curr == 0
 //@ func (*scanner).nextItem
 //@   props C06 C17
 //@   requires[swf@C17] swf(s)
@@ -1793,7 +1794,8 @@ package xpath
 //@   ensures[swf@C17] swf(s)
 //@   ensures[qualified-name@C17] result && s.typ == itemName && s.prefix != "" ==> s.name != ""
 //@ func (*scanner).skipSpace
-//@   props C06 C17
+//@   props C06 C17 C10
+//@   ensures[xpath-whitespace-skipped@C10] s.curr != ' ' && s.curr != '\t' && s.curr != '\n' && s.curr != '\r'
 //@   requires[swf@C17] swf(s)
 //@   maypanic
 //@   modifies s.curr, s.currSize, s.pos
